@@ -105,6 +105,8 @@ class Evaluator:
             return bool(self.terms[d])
         if f"len({d})" in self.terms:  # a collection used for its truthiness: non-empty
             return bool(self.terms[f"len({d})"])
+        if isinstance(e, ast.Attribute) and e.attr == "public" and f"len({flow.dump(e.value)}.memberships)" in self.terms:
+            return self.terms[f"len({flow.dump(e.value)}.memberships)"] == 0  # Membership.public: no member ids
         if isinstance(e, ast.Call) and flow.dump(e.func) == "TupleOps.is_empty" and len(e.args) == 1 and f"len({flow.dump(e.args[0])})" in self.terms:
             return self.terms[f"len({flow.dump(e.args[0])})"] == 0  # the repository's own `len(xs) == 0`
         if isinstance(e, ast.Call) and isinstance(e.func, ast.Attribute) and e.func.attr == "isdisjoint" and len(e.args) == 1 and not e.keywords:
